@@ -16,9 +16,22 @@ fn scalar_from_hex(h: &str) -> Result<vf::GroupOrderElement, String> {
     vf::GroupOrderElement::from_bytes(&b).map_err(|e| e.to_string())
 }
 
+/// every area may contribute `exec(op, in) -> Option<Result<Value, String>>`; add to this list
+fn area_execs() -> Vec<fn(&str, &Value) -> Option<Result<Value, String>>> {
+    vec![]
+}
+
 pub fn exec_one(v: &Value) -> Value {
     let op = v["op"].as_str().unwrap_or("");
     let inp = &v["in"];
+    for f in area_execs() {
+        if let Some(r) = crate::util::guard_inf(|| f(op, inp)).ok().flatten() {
+            return match r {
+                Ok(out) => json!({"id": v["id"], "out": out}),
+                Err(e) => json!({"id": v["id"], "error": e}),
+            };
+        }
+    }
     let r: Result<Value, String> = (|| match op {
         // base given as 128-byte affine hex, exponent as hex scalar -> 128-byte affine hex
         "g2mul" => {
